@@ -25,7 +25,7 @@ CLAIMED = {
  "C17": ("stream","exploration","4 C17","messages delivered by a simulated transport in arbitrary fragments (including empty ones) to receivers carrying a running CRC/hash; end-of-stream value compared with a bitwise reference and with the reflected receiver","deterministic simulation: seeded fragmentation of a byte stream, running value vs bitwise reference"),
  "C18": ("stream","exploration","4 C18","code-point streams encoded by the real encoder, fragmented, truncated and (separately) corrupted by a simulated transport; decoder fed from a buffer that ends at an inaccessible page","deterministic simulation: seeded truncation/fragmentation/corruption of a byte stream against a guard page"),
 }
-IMPLEMENTED = [l.strip() for l in open(os.path.join(os.path.dirname(os.path.abspath(__file__)),'implemented.txt')) if l.strip()]
+IMPLEMENTED = [l.strip() for l in open(os.path.join(os.path.dirname(os.path.dirname(os.path.abspath(__file__))),'implemented.txt')) if l.strip()]
 ENG = {"seq":"sim/seq.cc","tree":"sim/tree.cc","ctl":"sim/ctl.cc","stream":"sim/stream.cc"}
 checks=[]; na=[{"property_id":k,"reason":v} for k,v in NA.items()]
 for pid,(eng,level,ref,text,tech) in CLAIMED.items():
@@ -42,5 +42,5 @@ m={"version":1,"setup_cmd":"./check --build-all",
  "hooks":{"guard":"LIBA_VERIF","enable":"no hooks are needed: the public a_alloc function pointer is the only seam (assigned at run time by the simulator); liba sources are compiled unmodified","baseline_off_cmd":"cmake -G Ninja -B /repo/_build -S /repo >/dev/null && cmake --build /repo/_build >/dev/null && ctest --test-dir /repo/_build -j8 --timeout 900","source_commits":[],"add_only":True},
  "engines":engs,"checks":checks,"not_applicable":na,
  "notes":"Deterministic simulation with fault injection (DESIGN.md). VIOLATION / KNOWN-FINDING lines as specified; exit 2 = harness error (non-replayable alarm), never reported as a violation. known_findings.txt lists recorded findings and fix: commits."}
-json.dump(m,open(os.path.join(os.path.dirname(os.path.abspath(__file__)),'MANIFEST.json'),'w'),indent=1)
+json.dump(m,open(os.path.join(os.path.dirname(os.path.dirname(os.path.abspath(__file__))),'MANIFEST.json'),'w'),indent=1)
 print("checks:",[c["property_id"] for c in checks])
